@@ -723,6 +723,10 @@ func (p *path) search(toks tokens, verb string) (*method, params, error) {
 		}
 	}
 
+	if toks[0].typ != tokenSlash {
+		// Variables only start after a '/', a ':' is not a segment separator.
+		return nil, nil, errNotFound
+	}
 	for _, v := range p.variables {
 		l := v.index(toks[1:]) + 1 // bump off /
 		if l == 0 {
